@@ -22,7 +22,7 @@ if want is None:
     print('passed',len(passed),'failed',len(failed)); sys.exit(0)
 missing=sorted(want-passed)
 print('baseline: %d/%d stable tests pass; other failures: %s'%(len(want&passed),len(want),sorted(failed-want)))
-for m in missing: print('MISSING',m)
+for m in missing[:10]: print("MISSING",m)
 sys.exit(1 if missing else 0)
 PY
 rc=$?
